@@ -23,6 +23,9 @@ import (
 
 // ---- a small DER builder, independent of the library's marshalling ----
 
+var c03Methods = []string{"GET", "POST", "OPTIONS", "HEAD", "PUT", "DELETE", "PATCH", "TRACE", "PROPFIND", "OPTIONS", "GET"}
+var c03Requests int
+
 func derLen(n int) []byte {
 	if n < 128 {
 		return []byte{byte(n)}
@@ -449,7 +452,14 @@ func runSpCase(t *testing.T, m *Model, rng *RNG, c spCase, replay bool, shared h
 				h = shared
 				sharedInner.Store(inner)
 			}
-			req := httptest.NewRequest("GET", "http://host.test.gokrb5/resource", nil)
+			// the method is the application's matter: the wrapper authenticates every request alike
+			c03Requests++
+			method := c03Methods[c03Requests%len(c03Methods)]
+			req := httptest.NewRequest(method, "http://host.test.gokrb5/resource", nil)
+			if method == "OPTIONS" {
+				req.Header.Set("Origin", "http://elsewhere.example")
+				req.Header.Set("Access-Control-Request-Method", "POST")
+			}
 			req.RemoteAddr = c.remote
 			if !c.noHeader {
 				req.Header["Authorization"] = []string{hdr}
@@ -765,7 +775,8 @@ func c03Interleaved(t *testing.T, m *Model, v *Verdict, rng *RNG, et int32) {
 			opts = append(opts, service.MaxClockSkew(5*time.Minute), service.DecodePAC(false), service.Logger(discard), gate)
 			h := spnego.SPNEGOKRB5Authenticate(http.HandlerFunc(func(w http.ResponseWriter, r *http.Request) { w.WriteHeader(200) }), kt, opts...)
 			serve := func(remote, hdr string) int {
-				req := httptest.NewRequest("GET", "http://host.test.gokrb5/resource", nil)
+				c03Requests++
+				req := httptest.NewRequest(c03Methods[c03Requests%len(c03Methods)], "http://host.test.gokrb5/resource", nil)
 				req.RemoteAddr = remote
 				if hdr != "" {
 					req.Header["Authorization"] = []string{hdr}
